@@ -13,7 +13,7 @@ EXPLANATION = (
     "definite information and a connected graph with a fixed vertex chi^2 is strictly convex in the free coordinates, so a "
     "stationary point is the unique global minimiser (mathematics, not code)."
 )
-BOUNDS = {"quick": "7 topologies over 2..3 vertices (tree, loop, multi-edge, landmark edges with offsets, several fixed), R^2 and R^3, one iteration from an arbitrary start", "thorough": "17 topologies over 2..4 vertices and <=5 edges, all non-empty fixed subsets of the 3-vertex loop"}
+BOUNDS = {"quick": "10 topologies over 2..3 vertices (tree, loop, multi-edge, landmark edges with offsets, several fixed), R^2 and R^3, one iteration from an arbitrary start", "thorough": "17 topologies over 2..4 vertices and <=5 edges, all non-empty fixed subsets of the 3-vertex loop"}
 OUTSIDE = "5..30 vertices (identical per-edge algebra, but the solver verdict covers the bound only); rounding; SuperLU"
 ASSUMPTIONS = ["solver contract: returns dx with H dx = rhs (nonsingular case)", "information symmetric", "connected + >=1 fixed + SPD information => unique minimiser (convexity argument)"]
 
@@ -89,6 +89,9 @@ TOPO_QUICK = [
     (2, 3, [("o", 0, 1), ("l", 0, 2), ("l", 1, 2)], set(), True),
     (3, 2, [("l", 0, 1), ("o", 0, 1)], set(), True),
     (3, 3, [("o", 0, 1), ("o", 2, 1)], {0, 2}, False),
+    (2, 3, [("o", 0, 1), ("o", 1, 2), ("o", 2, 1)], set(), True),  # anti-parallel edges between two free vertices
+    (2, 3, [("o", 0, 1), ("o", 1, 2), ("o", 0, 2)], {0, 2}, False),  # an edge joining two fixed vertices
+    (3, 3, [("o", 1, 2), ("l", 2, 1), ("o", 0, 1)], set(), True),
 ]
 TOPO_MORE = [
     (3, 3, [("o", 0, 1), ("o", 1, 2), ("o", 0, 2)], set(), True),
